@@ -684,6 +684,8 @@ class Interp:
             return fn.fn(self, *args, **kwargs)
         if isinstance(fn, LibRef):
             impl = self.lib.get(fn.name)
+            if impl is None and fn.name.startswith("some.path."):
+                return LibRef("some.path")      # opaque filesystem path: methods yield paths
             if impl is None and fn.name.rsplit(".", 1)[-1].endswith(("Error", "Exception", "Warning")):
                 return self.instantiate(self.external_exc(fn.name), args, kwargs)
             if impl is None:
